@@ -20,7 +20,7 @@ from .. import common, modes
 
 BOUNDS = {"quick": {"json_pair_subset": 5, "json_top_subset": 7, "calc_tokens": 6}, "thorough": {"json_pair_subset": 9, "json_top_subset": 14, "calc_tokens": 7}}
 
-SCALARS = ["0", "-0", "10", "1.5", "1e2", "1E+2", "-1.25e-3", '""', '"a"', '"\\n"', '"é"', '"\\\\\\""', '"\\/"', "true", "false", "null"]
+SCALARS = ["0", "-0", "10", "1.5", "1e2", "1E+2", "-1.25e-3", '""', '"a"', '"\\n"', '"é"', '"\\\\\\""', '"\\/"', '"\x7f\x85\u2028"', '"\\u00e9\\uD83D\\uDE00"', "true", "false", "null"]
 S4 = ["0", '"a"', "true", "-1.25e-3"]
 
 
@@ -211,7 +211,7 @@ def _json_chunk(payload):
 
 # ----------------------------------------------------------------------------- calculator
 
-OPERANDS = ["1", "2", "3", "x"]
+OPERANDS = ["0", "1", "2", "3", "x"]
 INFIX = ["+", "-", "*", "/", "^"]
 ENV = {"x": 5}
 LIMIT = 10 ** 6
@@ -515,7 +515,7 @@ def run(tier: str) -> int:
         "rule": "JSON: all documents of a bounded generator (top level array or object, three nesting levels, width <= 2, scalars "
                 f"{SCALARS}), in the layouts: no whitespace, one space at every gap, leading space, and each single gap set to newline+tab; both bundled JSON grammars x four modes; the tree must mirror json.loads "
                 "(nesting, member order, float(number text) == value, json.loads(string pair text) == value) and, for the first two layouts, every proper prefix must be rejected. "
-                "Calculator: every well-formed token string -* T !* (op -* T !*)* with T an operand from {1,2,3,x} or a parenthesised expression, up to N tokens, in two layouts; an expression is kept only if EVERY bracketing of it "
+                "Calculator: every well-formed token string -* T !* (op -* T !*)* with T an operand from {0,1,2,3,x} or a parenthesised expression, up to N tokens, in two layouts; an expression is kept only if EVERY bracketing of it "
                 "evaluates without error and within 1e6 under an independent evaluator (so any tree an implementation builds is safe to evaluate); the three implementations, with parser modules generated in memory from the optimised and from the unoptimised grammar, "
                 "must return the value of an independent recursive-descent evaluator of the documented table (! > unary - > ^ right > * / left > + - left). distinct_nontrivial = documents + kept expressions",
         "samples": [{"json": '{"k":[1.5,{"k":"\\n"}]}'}, {"calculator": "-2^2!*3"}],
